@@ -3,6 +3,7 @@ import RallyProofs.Race
 import RallyProofs.RaceCompletion
 import RallyProofs.RaceProgress
 import RallyProofs.RaceDeadlock
+import RallyProofs.RaceLive
 /-!
 # C01 — the schedule runs step by step on all clients under any message timing
 
@@ -246,18 +247,41 @@ theorem idle_poll_is_stutter (cfg : Cfg) (s : State) (w : Nat) (ts : List (TaskA
     have : (s.ws w).wake - 1 + 1 = (s.ws w).wake := by omega
     rw [this]
 
-/-- the full liveness statement: every unfinished reachable state of a race in which every element CAN end has an
-    enabled event that changes the state.  Proved below for configurations whose tasks all end by themselves
-    (`progress_finite_partial`); for elements that end only through completed-by the ingredients are proved
-    (`completed_by_effective`, `wakeup_chain`) and the simulator's hang detector searches for counterexamples. -/
+/-- the liveness statement: every unfinished reachable state of a race whose configuration satisfies `canEnd` has an
+    enabled event that changes the state (i.e. one that is not an idle poll — `idle_poll_is_stutter`). -/
 def ProgressFull (cfg : Cfg) (canEnd : Prop) : Prop :=
   canEnd → ∀ s, Reach cfg s → s.d.stepP1 ≤ cfg.S → ∃ e s', step cfg s e = some s' ∧ Changed s s'
 
-/-- **progress (partial: all tasks finite)** — no deadlock: while the race is not over some event other than an idle
-    poll is enabled, for every number of workers, every schedule shape and every reachable state. -/
-theorem progress_finite_partial (cfg : Cfg) (hwf : cfg.WF) : ProgressFull cfg cfg.AllFinite := by
-  intro haf s hr hunf
-  exact no_deadlock hwf haf hr hunf
+/-- **progress** — no deadlock, no lost completion, no stalled worker: for every number of workers, every schedule
+    shape and every reachable state, while the race is not over some event other than an idle poll is enabled,
+    provided *every element can end* (`Cfg.CanEnd`): completing tasks are finite and each element either consists of
+    workers that end on their own, or has a named completed-by task all of whose clients' workers end on their own,
+    or (completed-by any) has a worker running such a task that ends on its own — where a worker "ends on its own" if
+    every task that does not terminate by itself sits in or after a column holding a finite completing-type task.
+    Uses all four invariants: `Inv` (barrier / wake-up chain), `CInv` (no lost completion), `KInv` (the completion
+    flag is set as soon as a completing-type task has ended), `NInv` (the broadcast happens as soon as the awaited
+    workers have reported).  A stalled worker (pinned skip branch), an ignored CompleteCurrentTask (pinned handler) or a
+    broadcast triggered by an idle worker (pinned `any` rule) each make this theorem unprovable. -/
+theorem progress (cfg : Cfg) (hwf : cfg.WF) : ProgressFull cfg cfg.CanEnd := by
+  intro hce s hr hunf
+  exact no_deadlock_canEnd hwf hce hr hunf
+
+/-- configurations whose tasks all end by themselves can end -/
+theorem allFinite_canEnd (cfg : Cfg) (haf : cfg.AllFinite) : cfg.CanEnd := by
+  refine ⟨?_, ?_⟩
+  · intro w e col t hcol ht _
+    exact haf w e col hcol t ht
+  · intro e _
+    left
+    intro u _ c col t hcol ht hnf
+    have := haf u e col (List.mem_of_getElem? hcol) t ht
+    rw [this] at hnf
+    cases hnf
+
+/-- corollary: deadlock-freedom when every task is finite -/
+theorem progress_finite (cfg : Cfg) (hwf : cfg.WF) : ProgressFull cfg cfg.AllFinite := by
+  intro haf
+  exact progress cfg hwf (allFinite_canEnd cfg haf)
 
 /-! ### non-vacuity: a concrete 2-worker, 1-element configuration with a completed-by task (tests, labelled as tests) -/
 
@@ -268,6 +292,36 @@ def exCfg : Cfg :=
     workerOf := fun c => c, clientsOf := fun w => [w] }
 
 example : exCfg.WF := ⟨by decide, by decide⟩
+
+/-- the example configuration (an eternal task ended by a named completed-by task on another worker) can end -/
+example : exCfg.CanEnd := by
+  refine ⟨?_, ?_⟩
+  · intro w e col t hcol ht hcp
+    simp only [exCfg] at hcol
+    split at hcol
+    · split at hcol
+      · simp only [List.mem_singleton] at hcol; subst hcol; simp only [List.mem_singleton] at ht; subst ht; rfl
+      · simp only [List.mem_singleton] at hcol; subst hcol; simp only [List.mem_singleton] at ht; subst ht; simp at hcp
+    · simp at hcol
+  · intro e he
+    have he0 : e = 0 := by simp only [exCfg] at he; omega
+    subst he0
+    right; left
+    refine ⟨by simp [exCfg], ?_⟩
+    intro c hc
+    simp only [exCfg, if_true, List.mem_singleton] at hc
+    subst hc
+    refine ⟨by simp [exCfg], ?_⟩
+    intro c col t hcol ht hnf
+    simp only [exCfg, if_true] at hcol
+    cases c with
+    | zero =>
+      simp only [List.getElem?_cons_zero, Option.some.injEq] at hcol
+      subst hcol
+      simp only [List.mem_singleton] at ht
+      subst ht
+      simp at hnf
+    | succ n => simp at hcol
 
 /-- a complete run of that configuration: the eternal task of worker 1 is ended by CompleteCurrentTask -/
 def exRun : List Event :=
